@@ -157,3 +157,32 @@ def run(ctx):
         ctx.ob('C33-D5', 'identity', 'status code ' + code, 'logged with one kind at every site', len(kinds) == 1,
                detail='' if len(kinds) == 1 else 'logged as %s' % {k: sorted(set(x[0].split('::')[-1] for x in v))[:3] for k, v in kinds.items()})
 
+    # ---- D6 sibling agreement: check_against_partial_claim (Reader / CawgValidator path) and check_against_manifest (builder path) report a changed
+    # referenced assertion the same way: the Failure log decided by the hash comparison has the same two nearest deciding conditions in both
+    # (compared by call skeleton, the collections they iterate differ by design)
+    import decisions
+    sib = [n for n in prog.fns() if re.search(r'signer_payload::SignerPayload::check_against_(partial_claim|manifest)$', n)]
+    if ctx.ob('C33-D6', 'signer_payload', 'sibling checkers', 'both present', len(sib) == 2, detail=str(sib), nontrivial=False):
+        def skeleton(term):
+            return ' '.join(re.findall(r'[!A-Za-z_][\w:]*(?=\()', term)) + ' -> ' + term.rsplit('->', 1)[-1].strip()
+        sk = {}
+        for n2 in sib:
+            f2 = prog.fn(n2)
+            ctx.analysed(n2, len(list(f2.calls())))
+            rows = []
+            # the hash comparison of the claim's assertion with the referenced one, and the conditions under which it is evaluated
+            for bi2, t2 in f2.calls():
+                if re.search(r'PartialEq::(ne|eq)$', t2['fd']):
+                    tt = T.call_term(f2, bi2)
+                    if tt.count('HashedUri::hash(') >= 2:
+                        d_ = decisions.decisions_for_block(f2, T, bi2, 2)
+                        rows.append(tuple(skeleton(x) for x in d_))
+            for b2 in range(len(f2.B)):
+                for dst2, rv2 in f2.B[b2]['s']:
+                    if rv2['k'] == 'bin' and rv2['op'] in ('Eq', 'Ne') and (T.op_term(f2, rv2['a']) + T.op_term(f2, rv2['b'])).count('HashedUri::hash(') >= 2:
+                        rows.append(tuple(skeleton(x) for x in decisions.decisions_for_block(f2, T, b2, 2)))
+            sk[n2] = sorted(rows)
+        ctx.ob('C33-D6', 'signer_payload', 'hash comparison of a referenced assertion', 'present in both checkers', all(sk[n2] for n2 in sib), detail=str({k.split('::')[-1]: v for k, v in sk.items()})[:300])
+        ctx.ob('C33-D6', 'signer_payload', 'hash comparison of a referenced assertion', 'evaluated under the same conditions in check_against_partial_claim and check_against_manifest', sk[sib[0]] == sk[sib[1]],
+               detail=str({k.split('::')[-1]: v for k, v in sk.items()})[:400])
+
